@@ -32,6 +32,8 @@ def alphabet(nx=4, safe=False, unkey=None, variant='plain'):
             val = stubs._lvalue(recv[0])
         elif variant == 'frac':
             val = ('frac', recv[0])
+        elif variant == 'falsykey':
+            val = stubs._zvalue(args)
         elif variant == 'plain':
             val = stubs._value(*recv)
         elif variant == 'big':
@@ -56,6 +58,15 @@ def alphabet(nx=4, safe=False, unkey=None, variant='plain'):
         add((es[0], 0), {}, (es[0], 0), (0, 'e'))
         add((), {'x': es[1]}, (es[1], 0), (1, 'e'))
         add((), {'y': 0, 'x': es[0]}, (es[0], 0), (0, 'e'))
+        add((7,), {}, (7, 0), (7, 0), 'raise')
+        add((8,), {}, (8, 0), (8, 0), 'raise')
+    elif variant == 'falsykey':   # z(*args) called with one argument or none: the keys are 0, '', 1, 2, (), b''
+        zs = stubs.FALSY[:nx]
+        for n, x in enumerate(zs):
+            add((x,), {}, (x, 0), (n, 'z'))
+        add((), {}, ('none', 0), (4, 'z'))
+        add((b'',), {}, (b'', 0), (5, 'z'))
+        add((zs[0],), {}, (zs[0], 0), (0, 'z'))
         add((7,), {}, (7, 0), (7, 0), 'raise')
         add((8,), {}, (8, 0), (8, 0), 'raise')
     elif variant == 'mixed':      # values of mutually unorderable types in one position
@@ -216,7 +227,7 @@ class Recorder(object):
                 unkey = stubs.BAD_BY_KIND.get(kind, stubs.BadRepr)()
         self.variant = cfg.get('variant', 'plain')
         self.args = alphabet(cfg.get('nx', 4), self.safe, unkey, self.variant)
-        self.funcs = {'plain': stubs.FUNCS, 'big': stubs.BFUNCS, 'eqtypes': stubs.EFUNCS, 'mixed': stubs.MFUNCS, 'long': stubs.LFUNCS, 'ignore_w': stubs.WFUNCS, 'frac': stubs.QFUNCS, 'ignore_y': stubs.GFUNCS, 'ignore_1': stubs.GFUNCS, 'tol0': stubs.HFUNCS,
+        self.funcs = {'plain': stubs.FUNCS, 'falsykey': stubs.ZFUNCS, 'big': stubs.BFUNCS, 'eqtypes': stubs.EFUNCS, 'mixed': stubs.MFUNCS, 'long': stubs.LFUNCS, 'ignore_w': stubs.WFUNCS, 'frac': stubs.QFUNCS, 'ignore_y': stubs.GFUNCS, 'ignore_1': stubs.GFUNCS, 'tol0': stubs.HFUNCS,
                       'tol1': stubs.TFUNCS}[self.variant]
         self.ni = cfg.get('ni', 1)
         self.na = cfg.get('na', 2)
